@@ -192,6 +192,10 @@ class RealRig(Rig):
             return t.session is not None, t.session_channel is not None
         return t.session is not None, t.stdin is not None
 
+    def note_step_exception(self, exc):
+        if exc is not None and type(exc).__name__ != "ScrapliTimeout":
+            self.dead_seen = True
+
     def usable(self):
         sess, chan = self._handles()
         return bool(sess and chan and not self.dead_seen)
